@@ -12,6 +12,8 @@ type Parser struct {
 	errors    []string
 
 	unsupported bool
+	// usedClauses holds the update clauses (SET, REMOVE, ADD, DELETE) already parsed
+	usedClauses map[TokenType]bool
 
 	prefixParseFns map[TokenType]prefixParseFn
 	infixParseFns  map[TokenType]infixParseFn
@@ -357,6 +359,17 @@ func (p *Parser) parseUnsupportedExpression() Expression {
 }
 
 func (p *Parser) parseUpdateActionExpression() Expression {
+	if p.usedClauses == nil {
+		p.usedClauses = map[TokenType]bool{}
+	}
+
+	if p.usedClauses[p.curToken.Type] {
+		msg := fmt.Sprintf("the %s section can only be used once in an update expression", p.curToken.Type)
+		p.errors = append(p.errors, msg)
+	}
+
+	p.usedClauses[p.curToken.Type] = true
+
 	expression := &UpdateExpression{
 		Token:       p.curToken,
 		Expressions: p.parseActions(p.curToken),
